@@ -281,9 +281,32 @@ def analyze(ctx, want):
         ob("C02.c", "repetition:%s" % k, ok, det, fn.loc())
         ob("C15.f", "supported:greedy-%s:ok" % k, ok, det, fn.loc())
 
+    ret_paths_ = []       # [(denotation, path)] of the Ok results of the kind analysed last
+
+    def sign_of(p, pay):
+        """what the path knows about the count `pay` (a u32): "pos" (> 0), "zero", or None"""
+        for c, o in p.conds:
+            if c[0] == "binop" and len(c) == 4 and isinstance(o, bool):
+                a_, b_, op = c[2], c[3], c[1]
+                if b_ == ("int", 0) and norm_path(tpath(a_)) == norm_path(pay):
+                    if (op in ("Gt", "Ne") and o) or (op in ("Eq", "Le") and not o):
+                        return "pos"
+                    if (op in ("Gt", "Ne") and not o) or (op in ("Eq", "Le") and o):
+                        return "zero"
+                if a_ == ("int", 0) and norm_path(tpath(b_)) == norm_path(pay):
+                    if (op in ("Lt", "Ne") and o) or (op in ("Eq", "Ge") and not o):
+                        return "pos"
+                    if (op in ("Lt", "Ne") and not o) or (op in ("Eq", "Ge") and o):
+                        return "zero"
+        return None
+
+    def norm_path(s_):
+        return re.sub(r"[()&* ]", "", s_)
+
     def loop_facts(ps):
         """[(range lo, range hi, denotation of nfa at the cut)] and [denotation of Ok results]"""
         cuts, rets = [], []
+        del ret_paths_[:]
         for p in ps:
             kind, r = result(p)
             if p.end[0] == "cut":
@@ -300,6 +323,7 @@ def analyze(ctx, want):
                 cuts.append((rng, simp(den(nv)) if nv else None, p))
             elif kind == "Ok":
                 rets.append(simp(den(r)))
+                ret_paths_.append((simp(den(r)), p))
             elif kind == "Err":
                 rets.append(("err",))
         return cuts, rets
@@ -355,6 +379,15 @@ def analyze(ctx, want):
         ok_loops = [(norm(a), b) for a, b in got] == [(norm(a), b) for a, b in want_l]
         ok_tail = rets == [simp(tail)] or (len(rets) == 1 and rets[0] == simp(tail))
         short = k.split("/")[1]
+        if k == "Range/Exactly" and not (ok_loops and ok_tail):
+            # the last repetition peeled off (it takes the operand by value, the others a copy): `for _ in 1..n { .. }` and one
+            # more factor exactly when n > 0 — max(0, n - 1) + [n > 0] = n factors for every n
+            pay = payload("Exactly", 0)
+            peeled = [(norm(a), b) for a, b in got] == [(norm("1..%s" % pay), show(C))]
+            tails = sorted((sign_of(p_, pay) or "?", show(d_)) for d_, p_ in ret_paths_)
+            if peeled and tails == sorted([("pos", show(simp(C))), ("zero", show(simp(EPS)))]) and ("err",) not in rets:
+                ok_loops = ok_tail = True
+                want_l = got
         ob("C02.c", "repetition:%s:loops" % short, ok_loops,
            "loops (range, nfa after one iteration from ε): %s; expected %s" % (got, want_l), fn.loc())
         ob("C02.c", "repetition:%s:after-the-loops" % short, ok_tail,
